@@ -170,6 +170,9 @@ Section Generic.
   Notation hook_gen := (hook_gen state sha256 decode parse_int from_bech32 is_registered convert).
   Notation hook := (hook state sha256 decode parse_int from_bech32 is_registered convert).
   Notation hook_old := (hook_old state sha256 decode parse_int from_bech32 is_registered convert).
+  Notation hook_v1 := (hook_v1 state sha256 decode parse_int from_bech32 is_registered convert).
+  Notation middleware_v1 := (middleware_v1 state sha256 decode parse_int from_bech32 is_registered convert transfer_recv).
+  Notation hook_receiver := (hook_receiver from_bech32).
   Notation middleware := (middleware state sha256 decode parse_int from_bech32 is_registered convert transfer_recv).
   Notation middleware_old := (middleware_old state sha256 decode parse_int from_bech32 is_registered convert transfer_recv).
   Notation bare := (bare state transfer_recv).
@@ -178,27 +181,31 @@ Section Generic.
 
   (** every return statement of the hook hands back [ret ack]; the state changes only on the last path, and then
       it is exactly ConvertCoin's result for the message built from the packet *)
-  Lemma hook_gen_spec : forall ret st pkt a st' oa p,
-    hook_gen ret st pkt a = Ok (st', oa, p) ->
+  Lemma hook_gen_spec : forall chk ret st pkt a st' oa p,
+    hook_gen chk ret st pkt a = Ok (st', oa, p) ->
     oa = ret a /\
     ((st' = st /\ p <> HConverted) \/
      (p = HConverted /\ exists d amt,
         decode (pk_data pkt) = Some d /\ parse_int (fd_amount d) = Some amt /\ 0 <= amt /\
+        (chk = true -> length (hook_receiver d) = 20%nat) /\
         is_registered st (cm_denom (hook_msg pkt d amt)) = true /\
         convert st (hook_msg pkt d amt) = Ok st')).
   Proof.
-    intros ret st pkt a st' oa p H. unfold Ics20.hook_gen in H.
+    intros chk ret st pkt a st' oa p H. unfold Ics20.hook_gen in H.
     destruct (decode (pk_data pkt)) as [d|] eqn:Ed.
     2:{ inversion H; subst. split; [reflexivity|left; split; [reflexivity|discriminate]]. }
     destruct (parse_int (fd_amount d)) as [amt|] eqn:Ea.
     2:{ inversion H; subst. split; [reflexivity|left; split; [reflexivity|discriminate]]. }
+    destruct (chk && negb (Nat.eqb (length (hook_receiver d)) 20)) eqn:El.
+    { inversion H; subst. split; [reflexivity|left; split; [reflexivity|discriminate]]. }
     destruct (is_registered st _) eqn:Er; cbn [negb] in H.
     2:{ inversion H; subst. split; [reflexivity|left; split; [reflexivity|discriminate]]. }
     destruct ((amt <? 0) || _) eqn:Ep; [discriminate|].
     apply orb_false_iff in Ep. destruct Ep as [Ep _]. apply Z.ltb_ge in Ep.
     destruct (convert st _) as [s2| |] eqn:Ec; [| |discriminate].
     - inversion H; subst. split; [reflexivity|]. right. split; [reflexivity|].
-      exists d, amt. repeat split; assumption.
+      exists d, amt. repeat split; try assumption.
+      intros ->. cbn [andb] in El. apply negb_false_iff in El. apply Nat.eqb_eq in El. exact El.
     - inversion H; subst. split; [reflexivity|left; split; [reflexivity|discriminate]].
   Qed.
 
@@ -226,6 +233,7 @@ Section Generic.
       destruct (hook st1 pkt a) as [[[s o] p]| |] eqn:Eh; try discriminate.
       unfold Ics20.hook, Ics20.hook_gen in Eh.
       destruct (decode _); [|discriminate]. destruct (parse_int _); [|discriminate].
+      destruct (_ && _); [discriminate|].
       destruct (negb _); [discriminate|]. destruct (_ || _); [discriminate|].
       destruct (convert _ _); discriminate.
     - tauto.
@@ -268,6 +276,7 @@ Section Generic.
     destruct (ack_success a) eqn:Es; cbn [negb]; [|eauto].
     destruct (Hts _ _ _ _ Et Es) as (d & amt & Ed & Ea & Hpos).
     unfold Ics20.hook, Ics20.hook_gen. rewrite Ed, Ea.
+    destruct (_ && _); [eauto|].
     destruct (is_registered st1 _); cbn [negb]; [|eauto].
     replace (amt <? 0) with false by (symmetry; apply Z.ltb_ge; lia).
     cbn [hook_msg Ics20.hook_msg cm_denom]. rewrite ibc_denom_valid by apply Hsha. cbn [negb orb].
@@ -288,6 +297,7 @@ Section Generic.
     (st2 = st1 /\ hp <> Some HConverted) \/
     (hp = Some HConverted /\ ack_success a = true /\ exists d amt,
        decode (pk_data pkt) = Some d /\ parse_int (fd_amount d) = Some amt /\ 0 <= amt /\
+       length (hook_receiver d) = 20%nat /\
        is_registered st1 (cm_denom (hook_msg pkt d amt)) = true /\
        convert st1 (hook_msg pkt d amt) = Ok st2).
   Proof.
@@ -296,7 +306,27 @@ Section Generic.
     - destruct (hook st1 pkt a) as [[[s o] p]| |] eqn:Eh; try discriminate.
       inversion H; subst. apply hook_gen_spec in Eh. destruct Eh as [_ [[E Hp]|[Hp Hx]]].
       + left. split; [assumption|]. intros X; inversion X; contradiction.
-      + right. subst p. split; [reflexivity|]. split; [reflexivity|assumption].
+      + right. subst p. split; [reflexivity|]. split; [reflexivity|].
+        destruct Hx as (d & amt & Ed & Ea & Hpos & Hl & Hr & Hc). exists d, amt. repeat split; auto.
+    - inversion H; subst. left. split; [reflexivity|discriminate].
+  Qed.
+
+  (** the same for the code between the two repairs (no test of the receiver's length) *)
+  Lemma middleware_v1_state : forall st pkt st1 a st2 oa hp,
+    transfer_recv st pkt = Ok (st1, a) ->
+    middleware_v1 st pkt = Ok (st2, oa, hp) ->
+    (st2 = st1 /\ hp <> Some HConverted) \/
+    (hp = Some HConverted /\ exists d amt,
+       decode (pk_data pkt) = Some d /\ parse_int (fd_amount d) = Some amt /\
+       convert st1 (hook_msg pkt d amt) = Ok st2).
+  Proof.
+    intros st pkt st1 a st2 oa hp Et H. unfold Ics20.middleware_v1, middleware_gen in H. rewrite Et in H.
+    destruct (ack_success a) eqn:Es; cbn [negb] in H.
+    - destruct (hook_v1 st1 pkt a) as [[[s o] p]| |] eqn:Eh; try discriminate.
+      inversion H; subst. apply hook_gen_spec in Eh. destruct Eh as [_ [[E Hp]|[Hp Hx]]].
+      + left. split; [assumption|]. intros X; inversion X; contradiction.
+      + right. subst p. split; [reflexivity|].
+        destruct Hx as (d & amt & Ed & Ea & _ & _ & _ & Hc). exists d, amt. auto.
     - inversion H; subst. left. split; [reflexivity|discriminate].
   Qed.
 
